@@ -41,6 +41,28 @@ static std::string make_raw(int64_t seed) {
     for (size_t i = 0; i < n; i++) s.push_back((char)(r.chance(1, 2) ? r.below(256) : (uint64_t)"[]{}\",:\\0123456789-+.eEtrufalsn \t\n"[r.below(34)]));
     return s;
 }
+static std::string make_numtok(int64_t seed) {
+    // number-like tokens around the 63-character scratch limit of the parser
+    Rng r((uint64_t)seed);
+    size_t len = (size_t)r.range(58, 70);
+    if (r.chance(1, 6)) len = (size_t)r.range(100, 300);
+    std::string t;
+    if (r.chance(1, 3)) t.push_back('-');
+    unsigned style = (unsigned)r.below(4);
+    while (t.size() < len) {
+        size_t i = t.size();
+        if (style == 1 && i == 2) t.push_back('.');
+        else if (style == 2 && i == len / 2) t.push_back('e');
+        else if (style == 3 && r.chance(1, 9)) t.push_back("+-.eE"[r.below(5)]);
+        else t.push_back((char)('0' + r.below(10)));
+    }
+    switch (r.below(4)) {
+        case 0: return t;
+        case 1: return "[" + t + "]";
+        case 2: return "{\"n\":" + t + "}";
+        default: return "[1," + t + ",2]";
+    }
+}
 static std::string make_deep(int64_t kind, int64_t dsel, int64_t closed) {
     static const int depths[] = {998, 999, 1000, 1001, 1002, 1100, 5000, 100000};
     int d = depths[(uint64_t)dsel % 8];
@@ -190,7 +212,8 @@ Plan gen_store_plan(const std::string &prop, uint64_t seed, int64_t run) {
     auto add_doc = [&]() {
         unsigned k = (unsigned)r.below(20);
         if (k < 14) p.steps.push_back(mk("doc", {R(r), R(r), (int64_t)(r.chance(1, 3) ? 5 : (r.chance(1, 2) ? 0 : 3))}));
-        else if (k < 17) p.steps.push_back(mk("soup", {R(r)}));
+        else if (k < 16) p.steps.push_back(mk("soup", {R(r)}));
+        else if (k < 17) p.steps.push_back(mk("numtok", {R(r)}));
         else if (k < 19) p.steps.push_back(mk("raw", {R(r)}));
         else p.steps.push_back(mk("deep", {R(r), R(r), R(r)}));
     };
@@ -203,6 +226,7 @@ Plan gen_store_plan(const std::string &prop, uint64_t seed, int64_t run) {
     if (prop == "C01") {
         // one stored document, 0-2 sampled faults, several reads; truncation at every byte is enumerated by sub-executions
         if (r.chance(1, 40)) p.steps.push_back(mk("deep", {R(r), R(r), R(r)}));
+        else if (r.chance(1, 10)) p.steps.push_back(mk("numtok", {R(r)}));
         else if (r.chance(1, 6)) p.steps.push_back(mk(r.chance(1, 2) ? "soup" : "raw", {R(r)}));
         else p.steps.push_back(mk("doc", {R(r), R(r), (int64_t)(r.chance(1, 2) ? 5 : (r.chance(1, 2) ? 0 : 1))}));
         int nf = (int)r.below(3);
@@ -425,6 +449,7 @@ struct StoreRun {
             else if (st.op == "soup") { bytes = make_soup(st.A(0)); lastfault = "none(soup)"; have_doc = true; log.add("soup '" + show_bytes(bytes, 60) + "'"); }
             else if (st.op == "raw") { bytes = make_raw(st.A(0)); lastfault = "none(raw)"; have_doc = true; log.add("raw " + I((int64_t)bytes.size())); }
             else if (st.op == "lit") { bytes = st.S(0); lastfault = "none(lit)"; have_doc = true; log.add("lit '" + show_bytes(bytes, 60) + "'"); }
+            else if (st.op == "numtok") { bytes = make_numtok(st.A(0)); lastfault = "none(numtok)"; have_doc = true; stats.probes["long_number_token"]++; log.add("numtok '" + show_bytes(bytes, 80) + "'"); }
             else if (st.op == "deep") { bytes = make_deep(st.A(0), st.A(1), st.A(2)); lastfault = "none(deep)"; have_doc = true; stats.probes["deep_document"]++; log.add("deep " + I((int64_t)bytes.size())); }
             else if (st.op == "fault") {
                 int kind = (int)((uint64_t)st.A(0) % NFAULT);
